@@ -159,7 +159,11 @@ def replay_known(ctx, pid='C01', check=None):
     from .. import witness
     from ..build import VERIF
     n = 0
-    for f in sorted(glob.glob(os.path.join(VERIF, 'known', pid, '*.c')) + glob.glob(os.path.join(VERIF, 'known', pid, '*.cpp'))):
+    listed = sorted(glob.glob(os.path.join(VERIF, 'known', pid, '*.c')) + glob.glob(os.path.join(VERIF, 'known', pid, '*.cpp')))
+    # witnesses of repaired defects are replayed too: their keys are not listed, so a defect that returns alarms
+    repaired = sorted(glob.glob(os.path.join(VERIF, 'known', 'fixed', pid, '*.c')) +
+                      glob.glob(os.path.join(VERIF, 'known', 'fixed', pid, '*.cpp')))
+    for f in listed + repaired:
         lang = 'cpp' if f.endswith('.cpp') else 'c'
         prog = witness.from_annotated(open(f).read(), lang)
         d = ctx.tmpdir('w_' + os.path.basename(f))
@@ -170,7 +174,7 @@ def replay_known(ctx, pid='C01', check=None):
             ctx.inconclusive('witness %s could not be replayed (%s)' % (name, res['status']))
             continue
         if not res['viols']:
-            ctx.count('known_witnesses', 'no-longer-failing:' + name)
+            ctx.count('known_witnesses', ('repaired-and-silent:' if f in repaired else 'no-longer-failing:') + name)
             continue
         ctx.count('known_witnesses', 'replayed-and-failing')
         for pid_, kidx, K, bad, vec, viol, hits, dsc in res['viols']:
